@@ -46,13 +46,18 @@ func c19Tree(seed uint64, name string) *lib.Build {
 			b.PutFile(fmt.Sprintf("m/t%03d", i), rb(r.Intn(200)))
 		}
 		b.PutFile("a-big0.bin", rb(r.Range(1*lib.MB, 3*lib.MB)))
+		b.PutFile(".dot-among-big", rb(1000))
 		b.PutFile("m/big1.bin", rb(r.Range(1*lib.MB, 2*lib.MB)))
 		b.PutFile("z-big2.bin", rb(1*lib.MB))
+		b.PutFile("m/exactly-4m.bin", rb(4*lib.MB))
+		b.PutFile("big-5m.bin", rb(5*lib.MB+17))
 		b.PutFile("m/big1.bin.tmp", rb(r.Range(10, 5000))) // a real entry named like a temporary file of its sibling
 		b.PutFile("m/t000.tmp", rb(77))
 		b.PutSymlink("m/lnk", "t001")
 	case "small":
 		b.PutFile("a.bin", rb(3000))
+		b.PutFile(".top-dot", rb(9))
+		b.PutFile("./"[1:]+"..two-dots/x", rb(19))
 		b.PutFile("b/c.bin", rb(70000))
 		b.PutFile("b/c.bin.tmp", rb(900))
 		b.PutFile("b/c.bin.part", rb(50))
@@ -64,6 +69,12 @@ func c19Tree(seed uint64, name string) *lib.Build {
 		}
 	default: // nested
 		b.PutFile("top.bin", rb(100000))
+		b.PutFile(".dotfile-at-top", rb(40))
+		b.PutFile(".config/inner.bin", rb(300))
+		b.PutFile("config/inner.bin", rb(301))
+		b.PutFile("..data", rb(5))
+		b.PutSymlink(".dotlink", "top.bin")
+		b.PutDir(".emptydotdir")
 		b.PutFile("dir with space/ünï çødé 日本.bin", rb(321))
 		b.PutFile("-dash/.hidden/"+strings.Repeat("long", 50)+".bin", rb(12))
 		b.PutFile("a/b/c/deep.bin", rb(5000))
